@@ -50,7 +50,11 @@ func init() {
 		if c.Tier == "thorough" {
 			mod = 3
 		}
-		return RunWire(c, &WireSpec{GenModule: "Gen_Wire", GenConsts: map[string]string{"OptMode": `"cover"`, "ValMode": `"all"`, "Muts": `"none"`}, GenInvs: []string{"Export"},
+		evolve := &WireSpec{GenModule: "Gen_Evolve", GenInvs: []string{"IsExtension", "ForwardCompat", "Export"},
+			Op: "decref", JudgeProp: "C09", DevProps: []string{"C09"}, Level: "model_checking", ForceOpts: []string{"GenerateUnsafeMethods", "SharedMemoryStrings"},
+			Rule:       "MustUnmarshalBebop against UnmarshalBebop on valid encodings written by a peer's schema version (the C04 pairs: new fields, fields the reader has deprecated), generated with GenerateUnsafeMethods",
+			Nontrivial: func(s *wireSchema, cs *wireCase) bool { return string(cs.Want) != string(cs.V) }}
+		return RunWireParts(c, []*WireSpec{{GenModule: "Gen_Wire", GenConsts: map[string]string{"OptMode": `"cover"`, "ValMode": `"all"`, "Muts": `"none"`}, GenInvs: []string{"Export"},
 			Op: "codec", JudgeProp: "C09", DevProps: []string{"C09", "C12"}, Level: "model_checking",
 			Rule: "cases = TLC-enumerated (shape x context x value x option set: pairwise cover of the 2^5 sets in quick, all 32 in thorough), one generated package per (schema, option set); each schema is generated under the empty set, under all five options, and under a seed-rotating quarter (quick) or fifth (thorough) of the other sets; a seed-dependent 1/6 (quick) or 1/3 (thorough) of the values is executed per package, at least one each; non-trivial if the option set is not empty",
 			Assume: wireAssume,
@@ -66,7 +70,7 @@ func init() {
 				}
 				return cs.Vi == 1 || (cs.Sid+cs.Mask*5+cs.Vi+c.Seed)%mod == 0
 			},
-			Nontrivial: func(s *wireSchema, cs *wireCase) bool { return cs.Mask != 0 }})
+			Nontrivial: func(s *wireSchema, cs *wireCase) bool { return cs.Mask != 0 }}, evolve})
 	}
 }
 
